@@ -278,6 +278,13 @@ func (s *Session) Run(ctx context.Context, dir string, args ...string) error {
 							if err != nil {
 								return err
 							}
+							if len(bss) == 0 {
+								// No match.  (Match can return an
+								// empty list that isn't nil, for
+								// example when a property variable
+								// found no property.)
+								bss = nil
+							}
 							if bss != nil {
 								if 1 < len(bss) {
 									log.Printf("warning: multiple Bindingss")
